@@ -51,6 +51,8 @@ UNITS.append(Unit(
 __CPROVER_ensures(B(self->local_sense[tid]) == !B(__CPROVER_old(self->local_sense[tid])))
 /* arrival: exactly one read-modify-write that decrements the counter */
 __CPROVER_ensures(self->count.nw >= 1 && self->count.rseq > 0)
+/* WHO re-arms: exactly the thread whose decrement reached zero (the value its read-modify-write read was 1) */
+__CPROVER_ensures((self->count.nw == 2) == (self->count.lastr == 1u))
 /* either the decrement reached zero: the caller re-armed the counter to the participant count and THEN published its new sense ... */
 /* ... or it left only after reading the global sense equal to its new local sense, after its own arrival; it wrote nothing else */
 __CPROVER_ensures(self->count.nw == 2 ? (self->count.lastw == self->num && self->sense.nw == 1 && B(self->sense.lastw) == B(self->local_sense[tid]) && self->sense.wseq > self->count.wseq && self->sense.rseq == 0)
